@@ -8,6 +8,7 @@ from . import common, engine_exec as E, scen as S, tlc
 CLAUSE_PROP = {
     "start_while_running_phase": "C07",
     "start_once": "C04",
+    "register_failing": "C04",  # a call ended in failure twice: it was executed twice
     "start_needed": "C04",  # only when the run succeeded (see classify)
     "start_deps_ok": "C01",
     "start_no_failed_ancestor": "C06",
@@ -86,6 +87,11 @@ def classify(task, rec, clauses):
         if p is None:
             out.setdefault("machinery", []).append("unmapped:" + c)
             continue
+        if c in ("retry_after_failed_attempt", "retry_within_attempts", "inv_AttemptsBounded") and task["opts"].get("retry", 1) == 1:
+            # without retry a second attempt of a call is a second execution (C04)
+            out.setdefault("C04", []).append(c if l == first_l else c + "(secondary)")
+        if c == "start_no_failed_ancestor":
+            out.setdefault("C01", []).append(c if l == first_l else c + "(secondary)")
         if c == "start_needed" and rec["outcome"] != "returned":
             p = "drift"  # C04 speaks about successful runs only
         if c == "outcome_hang" and interrupted:
@@ -146,8 +152,10 @@ def gen_tasks(profile, count, seed, opcode_frac=0.15, nmax=8):
             kw["maxerr"] = rng.choice([0, 1, None])
             kw["retry"] = att
         r = rng.random()
-        if r < 0.5:
+        if r < 0.35:
             strat = {"kind": "random", "p": rng.choice([0.05, 0.15, 0.3])}
+        elif r < 0.6:
+            strat = {"kind": "relyield", "q": rng.choice([0.15, 0.3, 0.5])}
         elif r < 0.9:
             strat = {"kind": "pct", "depth": rng.choice([1, 2, 3]), "est_steps": rng.choice([300, 1000, 3000])}
         else:
@@ -209,7 +217,7 @@ def enum_preempt_tasks(task, base_rec, limit=None):
     for s in idx:
         for tid in range(nthreads):
             t = dict(task)
-            t["strat"] = {"kind": "preempt", "preempts": [[s, tid]]}
+            t["strat"] = {"kind": "preempt", "preempts": [[s, tid]], "yic": bool(task.get("yic"))}
             out.append(t)
     return out
 
@@ -232,7 +240,7 @@ def _exec_one(task):
 def _exec_enum(task):
     """Baseline + all single preemptions (bounded-preemption enumeration, b = 1)."""
     base = dict(task)
-    base["strat"] = {"kind": "nonpreemptive"}
+    base["strat"] = {"kind": "preempt", "preempts": [], "yic": True} if task.get("yic") else {"kind": "nonpreemptive"}
     first = _exec_one(base)
     if first.get("_poisoned"):
         return {"multi": [(base, first)], "_poisoned": True}
@@ -314,3 +322,35 @@ def witness(f):
 
 def signature(prop, clause):
     return f"{prop}:engine:{clause}"
+
+
+def join_enum_tasks(seed, count=4, limit=None):
+    """Bounded-preemption enumeration (b = 1, every step x every other thread) on plans built around
+    *joins* - nodes with several predecessors, including literals with several dependencies whose
+    successor has a further, slow predecessor - with user calls yielding to every other thread
+    (a call takes long compared with the engine's bookkeeping). This is the systematic search for
+    check-then-act races on the predecessor counters."""
+    rng = random.Random(f"joins-{seed}")
+    fixed = [
+        {"nodes": [{"id": 1, "kind": "call"}, {"id": 2, "kind": "call"}, {"id": 3, "kind": "call"}, {"id": 4, "kind": "call"}],
+         "edges": [[1, 3, "pos"], [2, 3, "pos"], [3, 4, "pos"]], "output": {"node": 4}},
+        {"nodes": [{"id": 1, "kind": "call"}, {"id": 2, "kind": "call"}, {"id": 3, "kind": "lit"}, {"id": 4, "kind": "call"}, {"id": 5, "kind": "call"}],
+         "edges": [[1, 3, "dep"], [2, 3, "dep"], [3, 5, "dep"], [4, 5, "pos"]], "output": {"node": 5}},
+        {"nodes": [{"id": 1, "kind": "call"}, {"id": 2, "kind": "call"}, {"id": 3, "kind": "call"}, {"id": 4, "kind": "call"}, {"id": 5, "kind": "call"}],
+         "edges": [[1, 3, "pos"], [2, 3, "kw"], [1, 4, "dep"], [3, 5, "pos"], [4, 5, "pos"]], "output": {"list": [{"node": 5}]}},
+    ]
+    scns = [S.norm(dict(f)) for f in fixed]
+    while len(scns) < count:
+        s = S.random_scenario(rng, 4, 5, p_lit=0.2, p_edge=0.6)
+        p = S.preds(s)
+        if any(len(v) >= 2 for v in p.values()):
+            scns.append(s)
+    tasks = []
+    for i, scn in enumerate(scns[:count]):
+        t = _mk(scn, rng, W=rng.choice([2, 3]), sched=rng.choice(["default", "random"]), strat={"kind": "nonpreemptive"}, seed=seed * 31 + i)
+        t["mode"] = "enum1"
+        t["yic"] = True
+        if limit:
+            t["enum_limit"] = limit
+        tasks.append(t)
+    return tasks
